@@ -6,6 +6,8 @@ package main
 import (
 	"errors"
 	"fmt"
+	"os"
+	"path/filepath"
 	"strconv"
 	"strings"
 	"time"
@@ -236,16 +238,118 @@ func cliSuite(full bool) hlib.Suite {
 
 func suites(tier string) []hlib.Suite {
 	if tier == "quick" {
-		return []hlib.Suite{verdictSuite(20), spotSuite(), cliSuite(false)}
+		return []hlib.Suite{verdictSuite(20), spotSuite(100), cliSuite(false), cliFileSuite(false)}
 	}
-	return []hlib.Suite{verdictSuite(40), spotSuite(), cliSuite(true)}
+	return []hlib.Suite{verdictSuite(40), spotSuite(300), cliSuite(true), cliFileSuite(true)}
+}
+
+const cliFileYAML = `scenario: s
+default:
+  jitter: 0
+  distribution: none
+limits:
+  max-duration: 5s
+  concurrency: 1
+  max-iterations: %d
+  max-failures: %d
+  max-failures-rate: %d
+  ignore-dropped: %v
+stages:
+  - duration: 5s
+    mode: constant
+    rate: %s
+`
+
+// cliFileSuite: the same rule through `f1 run file <config>`, where the
+// tolerances come from the config document's limits instead of flags.
+func cliFileSuite(full bool) hlib.Suite {
+	return hlib.Suite{Name: fmt.Sprintf("cli-exit-status-file-mode/full=%v", full), Weight: 2, Run: func(r *hlib.Rec) {
+		mfs := []uint64{0, 1, 2}
+		rates := []int{0, 33, 50}
+		maxN := 2
+		if full {
+			maxN = 3
+			rates = []int{0, 1, 33, 50, 99}
+		}
+		dir, err := os.MkdirTemp("", "c08file")
+		if err != nil {
+			vrt.Infra("temp dir: " + err.Error())
+		}
+		defer os.RemoveAll(dir)
+		path := filepath.Join(dir, "config.yaml")
+		for ns := 0; ns <= maxN; ns++ {
+			for nf := 0; nf <= maxN; nf++ {
+				if ns+nf == 0 {
+					continue
+				}
+				for _, drops := range []bool{false, true} {
+					for _, ign := range []bool{false, true} {
+						for _, mf := range mfs {
+							for _, mfr := range rates {
+								if !r.Mine() {
+									continue
+								}
+								if r.Expired() {
+									return
+								}
+								r.Eval()
+								rate := "1/100ms"
+								if drops {
+									rate = "2/100ms"
+								}
+								doc := fmt.Sprintf(cliFileYAML, ns+nf, mf, mfr, ign, rate)
+								if err := os.WriteFile(path, []byte(doc), 0o600); err != nil {
+									vrt.Infra("write config: " + err.Error())
+								}
+								input := fmt.Sprintf("f1 run file config.yaml with limits max-iterations=%d max-failures=%d max-failures-rate=%d ignore-dropped=%v, one constant stage %s, %d passing then %d failing iterations", ns+nf, mf, mfr, ign, rate, ns, nf)
+								r.SampleCase(input)
+								res := hlib.RunCLIScenario([]string{"file", "-v", path}, 60*time.Second, func(t *f1testing.T) f1testing.RunFn {
+									return func(t *f1testing.T) {
+										id, _ := strconv.Atoi(t.Iteration)
+										if drops {
+											vtime.Sleep(150 * time.Millisecond)
+										}
+										if id > ns {
+											t.Fail()
+										}
+									}
+								})
+								if res.Status != vrt.StOK {
+									r.Fail("C08/cli-broken", "file", res.Status.String()+": "+res.Crash+res.Detail, input)
+									continue
+								}
+								s, f, d := hlib.IterationCounts(res.Reg)
+								if int(s+f) != ns+nf {
+									r.Fail("C08/harness", "file-iterations", fmt.Sprintf("the run did %d+%d iterations, expected %d", s, f, ns+nf), input)
+									continue
+								}
+								want := refFailed(s, f, d, "none", ign, mf, mfr)
+								got := res.Err != nil
+								if got != want {
+									kind := "exit-0-but-should-fail"
+									if got {
+										kind = "error-but-should-pass"
+									}
+									r.Fail("C08/cli-exit-status-file", kind+"/"+decider(s, f, d, "none", ign, mf, mfr), fmt.Sprintf("command returned error=%v (%v); the run had successful=%d failed=%d dropped=%d, the documented rule says failed=%v", got, res.Err, s, f, d, want), input)
+								}
+								if drops && d == 0 {
+									r.Fail("C08/harness", "no-drops", "the drops configuration produced no drop", input)
+								}
+								r.Distinct(fmt.Sprintf("%v d=%v ign=%v mf=%d mfr=%d f>0=%v", want, d > 0, ign, mf, mfr, f > 0))
+							}
+						}
+					}
+				}
+			}
+		}
+	}}
 }
 
 // spotSuite: the non-integral percentages the small grid cannot reach.
-func spotSuite() hlib.Suite {
-	return hlib.Suite{Name: "verdict/non-integral-percentages", Run: func(r *hlib.Rec) {
-		for total := uint64(1); total <= 40; total++ {
-			for f := uint64(0); f <= total && f <= 6; f++ {
+func spotSuite(maxTotal uint64) hlib.Suite {
+	return hlib.Suite{Name: fmt.Sprintf("verdict/every-share-of-up-to-%d-iterations", maxTotal), Run: func(r *hlib.Rec) {
+		for total := uint64(1); total <= maxTotal; total++ {
+			for f := uint64(0); f <= total; f++ {
 				if !r.Mine() {
 					continue
 				}
